@@ -49,6 +49,7 @@ fn execute_free(p: &Program, rounds: usize) {
                     for op in ops {
                         if !matches!(op, Op::Tick) {
                             let _ = apply_op(&store, &tables, op);
+                            crate::util::epoch_pump();
                         }
                     }
                     crate::session::Session::uninstall();
